@@ -44,3 +44,8 @@ claim("C20", "constant/congruence analysis of mlog.c over LLVM IR: residue subsc
       "Proves for every counter value: subscripts in bounds; vmlog writes slot head mod N with fmt + 3 arguments then increments; the fold preserves the slot residue, keeps the log wrapped and head below 2^31; get_line is NULL exactly on n >= head or n >= N and otherwise addresses slot (n + [head >= N]*head) mod N; mlog_nice logs exactly while head < N; mlog_get_line/mlog_dump format the lines get_line yields in order. With the arithmetic lemma (in the check's docstring and evidence) this gives 'line k is message n-min(n,N)+k', including across the 2^31 fold.",
       "The libc formatter's text is not decided. An mlog_dump that enumerates lines other than by get_line(0),get_line(1),.. is reported inconclusive (exit 2), not decided. Trusted: clang 14 front end, ir2json, path enumerator, lin.py.",
       "DESIGN.md section 2 C20")
+claim("C19", "finite-set evaluation of the decoder's IR over all 16 (last_state, state) pairs; latch value checked against floor division on boundary counter values",
+      "other",
+      "Decides the transition table (+1 clockwise, -1 anticlockwise, 0 otherwise, for every pair, hence from every decoder state), the state update and the latch (count := floor(internal_count/4) exactly at the detent state, after the update), and rotenc_count. These determine the internal position and rotenc_count for every signal sequence.",
+      "The rotenc_count14 clause ('at all times the same latched position modulo 2^14') is NOT decided by this check: it relates a live counter to a latched byte through carries and needs reachable-state reasoning (by inspection it fails next to multiples of 256 clicks, DESIGN.md O1). Trusted: clang 14 front end, ir2json, path enumerator, concrete expression evaluator.",
+      "DESIGN.md section 2 C19")
